@@ -52,6 +52,10 @@ type Opts struct {
 	// EmptyTokens: an empty reference token ("/a/", "/") is an ordinary token naming the member
 	// called "" (RFC 6901). C01 puts such pointers outside its stated domain; C13 does not.
 	EmptyTokens bool
+	// ScalarBlocksEnsure: under EnsurePath a string, number or boolean on the path is not out of
+	// the domain (as it is for C14) but simply in the way: the add is a plain add whose parent
+	// cannot be reached. Used by C08, which asks how that failure is reported.
+	ScalarBlocksEnsure bool
 }
 
 type Result struct {
@@ -329,6 +333,11 @@ func (e *Evaluator) ensure(toks []string) {
 				cur = nx
 				created = true
 				continue
+			}
+			if nx.K != jr.Obj && nx.K != jr.Arr && nx.K != jr.Null && e.O.ScalarBlocksEnsure {
+				// nothing can be created beneath a scalar: the add that follows fails because
+				// its parent cannot be reached, option or not
+				return
 			}
 			if nx.K != jr.Obj && nx.K != jr.Arr {
 				e.setOOD("ensure: null/scalar on path")
